@@ -60,7 +60,7 @@ type Run struct {
 	KnownHits map[string]int
 	// OnlyClasses, when set, restricts the violation classes this run reports (see foreign)
 	OnlyClasses map[string]bool
-	Extra     map[string]int64
+	Extra       map[string]int64
 }
 
 const maxLog = 600
